@@ -192,4 +192,10 @@ example : hdrMarshalTo exExt (rep 25 0xFF) =
     .ok ([0x90, 0, 0, 0, 0, 0, 0, 0, 0, 0, 0, 0, 0xBE, 0xDE, 0, 2, 0x53, 0x11, 0x22, 0x33, 0x44, 0, 0, 0, 0xFF], 24) := by
   decide
 
+/-! ### the padding clause of well-formedness is needed: with a padding size but no padding flag
+    MarshalTo accounts for the octets but never writes them, so a dirty destination shows through -/
+theorem c04_sharp_padding :
+    (pktMarshalTo { header := { version := 2 }, payload := [9], paddingSize := 2 } (rep 15 0xEE)).map (·.1.take 15)
+      ≠ pktMarshal { header := { version := 2 }, payload := [9], paddingSize := 2 } := by decide
+
 end Rtp.Props.C04
